@@ -9,6 +9,8 @@ of loop invariants, grouping of `matches` operands).
   `_ => {}`): when hoisting makes room for the hoisted value every variable at or
   above the slot must move, so a variable-owning variant without an arm keeps a
   stale slot;
+* the Quantifier variants that carry an expression and the ones whose expression
+  dfs_common pushes (hoisting, shift_vars, CSE and hashing only see what it pushes);
 * or_expr_from_ast: how the key that decides which `x matches /re/` operands of
   an `or` are merged into one regexp set is computed: `regex_set_key_hashes_whole_lhs`
   is true iff the key is a hash fed with EVERY node of the left operand
@@ -84,6 +86,29 @@ def main():
     if not re.search(r"let first_lhs = group\[0\]\.1; let multimatch = ctx\.ir\.matches_regex_set\(first_lhs, set_id\);", oe):
         raise TranslateError("or_expr_from_ast: the set is no longer evaluated on the first left operand of the group")
 
+    # Quantifier variants that carry an expression, and the ones whose expression dfs_common visits
+    qm = re.search(r"pub\(crate\) enum Quantifier \{", text)
+    if not qm:
+        raise TranslateError("enum Quantifier not found")
+    qbody = strip_comments(text[qm.end():match_brace(text, qm.end() - 1)])
+    q_expr = [m.group(1) for m in re.finditer(r"([A-Z][A-Za-z0-9]*)\s*\(\s*ExprId\s*\)", qbody)]
+    if not q_expr:
+        raise TranslateError("enum Quantifier: no variant with an ExprId payload")
+    dfs = strip_comments(src("lib/src/compiler/ir/dfs.rs"))
+    dc = fn_body(dfs, "dfs_common")
+    pm = re.search(r"let push_quantifier\s*=\s*\|quantifier: &Quantifier, stack: &mut Vec<_>\| match quantifier \{", dc)
+    if not pm:
+        raise TranslateError("dfs_common: closure push_quantifier not found")
+    pq = dc[pm.end():match_brace(dc, pm.end() - 1)]
+    q_trav = []
+    for am in re.finditer(r"((?:Quantifier::[A-Za-z0-9]+(?:\([a-z_]+\))?\s*\|?\s*)+)=>\s*\{([^}]*)\}", pq):
+        names = re.findall(r"Quantifier::([A-Za-z0-9]+)\(([a-z_]+)\)", am.group(1))
+        for (vn, binder) in names:
+            if binder != "_" and re.search(r"stack\.push\(Event::Enter\(\(\*" + binder + r"\b", am.group(2)):
+                q_trav.append(vn)
+    if not q_trav:
+        raise TranslateError("dfs_common: push_quantifier visits no quantifier expression")
+
     q = lambda l: "; ".join('"%s"' % x for x in l)
     out = f"""(* GENERATED by translate/gen_hoist.py from lib/src/compiler/ir/mod.rs and ir/ast2ir.rs
    -- do not edit; regenerated on every check. *)
@@ -95,6 +120,10 @@ Local Open Scope string_scope.
 Definition var_owning_variants : list string := [{q(owning)}].
 (* Expr variants with an arm in Expr::shift_vars *)
 Definition shift_vars_arms : list string := [{q(arms)}].
+
+(* Quantifier variants with an expression; the ones whose expression dfs_common pushes *)
+Definition quantifier_expr_variants : list string := [{q(q_expr)}].
+Definition quantifier_traversed_variants : list string := [{q(sorted(set(q_trav)))}].
 
 (* or_expr_from_ast: the grouping key of `x matches /re/` operands hashes every node of x *)
 Definition regex_set_key_hashes_whole_lhs : bool := {'true' if whole else 'false'}.
